@@ -15,4 +15,6 @@ def run(ctx):
     dbcommon.run_db(ctx, "tranpairs", 60 if ctx.thorough() else 6, "C03p")
     # (b) free-running concurrent clients against the real checker/merger/persist goroutines
     dbcommon.run_db(ctx, "tran", 24 if ctx.thorough() else 2, "C03c")
+    # (c) a transaction that runs into the write limit (10000), catches the error and tries to commit
+    dbcommon.run_db(ctx, "limit", 2 if ctx.thorough() else 1, "C03l")
     ctx.assumptions += dbcommon.ASSUME
